@@ -119,7 +119,7 @@ pub fn gen_watch(rng: &mut Rng, o: &WatchOpts) -> Scenario {
         s.files.extend(extra);
         s
     } else {
-        gen::gen_io(rng, &IoOpts { multi_project_pct: if o.io_only { 50 } else { 25 }, max_targets: 5, cmd_pct: 0, cmd_output_pct: 0, own_output_inside_input_pct: 0 })
+        gen::gen_io(rng, &IoOpts { multi_project_pct: if o.io_only { 50 } else { 25 }, max_targets: 5, cmd_pct: 0, cmd_output_pct: 0, own_output_inside_input_pct: 0, long_name_len: 0 })
     };
     if o.service_bias {
         for t in sc.projects[0].targets.iter_mut() {
